@@ -526,8 +526,11 @@ func (fg *FuncGen) execConvert(x *ssa.Convert) {
 			fg.bytesOfString(v, sl, fg.cur)
 			fg.vals[x] = Val{T: sl, Typ: to}
 		} else {
-			fg.note("[]rune(string) modelled as an unconstrained fresh slice")
-			fg.vals[x] = fg.freshVal("runes", to)
+			fg.note("[]rune(string): fresh slice, contents unconstrained, 0 < len <= len(s) for a non-empty string")
+			r := fg.freshVal("runes", to)
+			fg.assume(and(e.iop("<=", "(sllen "+r.T+")", "(slen "+v+")", true),
+				implies(e.iop("<", e.ilit(0), "(slen "+v+")", true), e.iop("<", e.ilit(0), "(sllen "+r.T+")", true))))
+			fg.vals[x] = r
 		}
 	case isPtr(from) || isPtr(to):
 		fg.vals[x] = Val{T: v, Typ: to}
